@@ -22,6 +22,8 @@ Contract == [ sift |-> "SingleSignal", ensemble_sift |-> "SingleSignal", complet
               hilberthuang |-> "EqualLen", hilberthuang_1d |-> "EqualLenColumns", holospectrum |-> "EqualLenColumns",
               get_cycle_stat |-> "EqualLen", phase_align |-> "EqualLen", bin_by_phase |-> "EqualLen",
               amplitude_normalise |-> "Columns",
+              \* second-level stacks [samples x first-level x second-level] for the routines that document them
+              amplitude_normalise_3d |-> "Columns", frequency_transform_nht_3d |-> "Columns",
               sift_second_layer |-> "Columns", mask_sift_second_layer |-> "Columns",
               \* the cycle routines also accept a Cycles container instead of a cycle vector
               get_cycle_stat_obj |-> "EqualLen", phase_align_obj |-> "EqualLen", get_control_points_obj |-> "EqualLen" ]
@@ -36,23 +38,26 @@ Expected(c, l) ==
       [] c = "EqualLenColumns" -> (IF l = "column" THEN "accept" ELSE IF l = "mismatch" THEN "reject" ELSE "n/a")
       [] c = "Columns" -> (IF l = "column" THEN "accept" ELSE "n/a")
 
-VARIABLES hist,        \* the session so far: <<ep, layout, readonly, reuse_opts>>
+VARIABLES edited,      \* TRUE: before the session, ANOTHER configuration object (a fresh get_config()) had its nested
+                       \* padding options edited - which must not be visible in any call (no shared default objects)
+          hist,        \* the session so far: <<ep, layout, readonly, reuse_opts>>
           args,        \* "pristine" | "modified": the caller's arrays
           opts,        \* "pristine" | "modified": the caller's option dictionaries
           verdict,     \* verdict of the last call
           result       \* result token of the last accepted call
-vars == <<hist, args, opts, verdict, result>>
-Init == hist = <<>> /\ args = "pristine" /\ opts = "pristine" /\ verdict = "none" /\ result = <<>>
+vars == <<edited, hist, args, opts, verdict, result>>
+Init == edited \in BOOLEAN /\ hist = <<>> /\ args = "pristine" /\ opts = "pristine" /\ verdict = "none" /\ result = <<>>
 
 Call(ep, l, ro, reuse) ==
     /\ Len(hist) < MaxCalls /\ Expected(Contract[ep], l) # "n/a"
     /\ (reuse => Len(hist) > 0 /\ hist[Len(hist)][1] = ep)
     /\ (SameEP /\ Len(hist) > 0 => hist[1][1] = ep)          \* option dicts can only be re-used for the same routine
-    /\ hist' = Append(hist, <<ep, l, ro, reuse>>)
+    /\ hist' = Append(hist, <<ep, l, ro, reuse>>) /\ UNCHANGED edited
     /\ verdict' = Expected(Contract[ep], l)
     \* the result is a function of the entry point and the (canonical) data only ...
     /\ result' = (IF verdict' = "accept"
-                  THEN <<ep, IF reuse /\ opts = "modified" THEN "stale_options" ELSE "canonical">> ELSE <<>>)
+                  THEN <<ep, IF reuse /\ opts = "modified" THEN "stale_options"
+                             ELSE IF edited /\ "SharedDefaultObjects" \in Dev THEN "foreign_options" ELSE "canonical">> ELSE <<>>)
     \* ... and the caller's objects are left alone
     /\ args' = (IF "WritesIntoInput" \in Dev /\ verdict' = "accept" THEN "modified" ELSE args)
     /\ opts' = (IF "ConsumesOptionDict" \in Dev /\ verdict' = "accept" THEN "modified" ELSE opts)
@@ -63,6 +68,6 @@ InputsUntouched == args = "pristine" /\ opts = "pristine"
 LayoutInsensitive == result # <<>> => result[2] = "canonical"
 RejectedNotProcessed == verdict = "reject" => result = <<>>
 Json == INSTANCE Json
-Export == Len(hist) = MaxCalls => PrintT(<<"BEHAVIOUR", Json!ToJson([hist |-> hist,
+Export == Len(hist) = MaxCalls => PrintT(<<"BEHAVIOUR", Json!ToJson([hist |-> hist, edited |-> edited,
              verdicts |-> [k \in 1..Len(hist) |-> Expected(Contract[hist[k][1]], hist[k][2])]])>>)
 =============================================================================
